@@ -1,6 +1,7 @@
 import CalmVerif.Props.C01
 import CalmVerif.Props.C01typed
 import CalmVerif.Props.C01tok
+import CalmVerif.Props.C01typed2
 open CalmVerif.Props.C01
 
 #print axioms print_ignores_positions
@@ -55,3 +56,23 @@ open CalmVerif.Props.C01
 #check @CalmVerif.Props.C01tok.parsed_pretty_lines_indented'
 #print axioms CalmVerif.Props.C01tok.parsed_pretty_ends_with_one_newline'
 #check @CalmVerif.Props.C01tok.parsed_pretty_ends_with_one_newline'
+#print axioms CalmVerif.Props.C01typed2.wfVal_canon_invariant
+#check @CalmVerif.Props.C01typed2.wfVal_canon_invariant
+#print axioms CalmVerif.Props.C01typed2.valAll_canon_invariant
+#check @CalmVerif.Props.C01typed2.valAll_canon_invariant
+#print axioms CalmVerif.Props.C01typed2.parsed_canon_well_typed'
+#check @CalmVerif.Props.C01typed2.parsed_canon_well_typed'
+#print axioms CalmVerif.Props.C01typed2.parsed_pretty_stream_typed'
+#check @CalmVerif.Props.C01typed2.parsed_pretty_stream_typed'
+#print axioms CalmVerif.Props.C01typed2.parsed_minify0_stream_typed'
+#check @CalmVerif.Props.C01typed2.parsed_minify0_stream_typed'
+#print axioms CalmVerif.Props.C01typed2.parsed_minify1_stream_typed'
+#check @CalmVerif.Props.C01typed2.parsed_minify1_stream_typed'
+#print axioms CalmVerif.Props.C01typed2.parsed_pretty_relexes_partial'
+#check @CalmVerif.Props.C01typed2.parsed_pretty_relexes_partial'
+#print axioms CalmVerif.Props.C01typed2.parsed_minify_relexes_partial'
+#check @CalmVerif.Props.C01typed2.parsed_minify_relexes_partial'
+#print axioms CalmVerif.Props.C01typed2.parsed_pretty_lines_indented''
+#check @CalmVerif.Props.C01typed2.parsed_pretty_lines_indented''
+#print axioms CalmVerif.Props.C01typed2.parsed_pretty_ends_with_one_newline''
+#check @CalmVerif.Props.C01typed2.parsed_pretty_ends_with_one_newline''
